@@ -76,7 +76,7 @@ func cmdSem(args []string) {
 		die(2, "usage: vh sem <corpus> <seed> <n> <out>")
 	}
 	var cfg genCfg
-	if args[0] != "allot" {
+	if args[0] != "allot" && args[0] != "illtyped" {
 		cfg = corpusCfg(args[0])
 	}
 	seed, n := argInt(args[1]), argInt(args[2])
@@ -91,6 +91,8 @@ func cmdSem(args []string) {
 		var c *Case
 		if args[0] == "allot" {
 			c = genAllotCase(r, i)
+		} else if args[0] == "illtyped" {
+			c = genIllCase(r, i)
 		} else {
 			c = genCase(r, cfg, i)
 		}
